@@ -526,7 +526,7 @@ VmTrap vm_core_execute(VmState *vm) {
                         VmString *s = vm_string_concat(&vm->heap, ea.as.string, eb.as.string);
                         ev = val_string(s);
                     } else if (ea.tag == TAG_INT && eb.tag == TAG_INT)
-                        ev = val_int(ea.as.i64 + eb.as.i64);
+                        ev = val_int((int64_t)((uint64_t)ea.as.i64 + (uint64_t)eb.as.i64));
                     else if (ea.tag == TAG_FLOAT && eb.tag == TAG_FLOAT)
                         ev = val_float(ea.as.f64 + eb.as.f64);
                     else if (ea.tag == TAG_FLOAT && eb.tag == TAG_INT)
@@ -534,7 +534,7 @@ VmTrap vm_core_execute(VmState *vm) {
                     else if (ea.tag == TAG_INT && eb.tag == TAG_FLOAT)
                         ev = val_float((double)ea.as.i64 + eb.as.f64);
                     else
-                        ev = val_int(ea.as.i64 + eb.as.i64);
+                        ev = val_int((int64_t)((uint64_t)ea.as.i64 + (uint64_t)eb.as.i64));
                     vm_array_push(result, ev);
                 }
                 vm_release(&vm->heap, a);
@@ -565,13 +565,13 @@ VmTrap vm_core_execute(VmState *vm) {
                             ev = val_string(s);
                         }
                     } else if (ea.tag == TAG_INT && scalar.tag == TAG_INT)
-                        ev = val_int(ea.as.i64 + scalar.as.i64);
+                        ev = val_int((int64_t)((uint64_t)ea.as.i64 + (uint64_t)scalar.as.i64));
                     else if (ea.tag == TAG_FLOAT || scalar.tag == TAG_FLOAT) {
                         double da = ea.tag == TAG_FLOAT ? ea.as.f64 : (double)ea.as.i64;
                         double ds = scalar.tag == TAG_FLOAT ? scalar.as.f64 : (double)scalar.as.i64;
                         ev = val_float(da + ds);
                     } else
-                        ev = val_int(ea.as.i64 + scalar.as.i64);
+                        ev = val_int((int64_t)((uint64_t)ea.as.i64 + (uint64_t)scalar.as.i64));
                     vm_array_push(result, ev);
                 }
                 vm_release(&vm->heap, a);
@@ -613,13 +613,13 @@ VmTrap vm_core_execute(VmState *vm) {
                     NanoValue eb = arr_b->elements[ai];
                     NanoValue ev;
                     if (ea.tag == TAG_INT && eb.tag == TAG_INT)
-                        ev = val_int(ea.as.i64 - eb.as.i64);
+                        ev = val_int((int64_t)((uint64_t)ea.as.i64 - (uint64_t)eb.as.i64));
                     else if (ea.tag == TAG_FLOAT || eb.tag == TAG_FLOAT) {
                         double da = ea.tag == TAG_FLOAT ? ea.as.f64 : (double)ea.as.i64;
                         double db = eb.tag == TAG_FLOAT ? eb.as.f64 : (double)eb.as.i64;
                         ev = val_float(da - db);
                     } else
-                        ev = val_int(ea.as.i64 - eb.as.i64);
+                        ev = val_int((int64_t)((uint64_t)ea.as.i64 - (uint64_t)eb.as.i64));
                     vm_array_push(result, ev);
                 }
                 vm_release(&vm->heap, a);
@@ -642,7 +642,7 @@ VmTrap vm_core_execute(VmState *vm) {
                     double ds = scalar.tag == TAG_FLOAT ? scalar.as.f64 : (double)scalar.as.i64;
                     double dr = arr_is_left ? da - ds : ds - da;
                     if (ea.tag == TAG_INT && scalar.tag == TAG_INT)
-                        ev = val_int(arr_is_left ? ea.as.i64 - scalar.as.i64 : scalar.as.i64 - ea.as.i64);
+                        ev = val_int(arr_is_left ? (int64_t)((uint64_t)ea.as.i64 - (uint64_t)scalar.as.i64) : (int64_t)((uint64_t)scalar.as.i64 - (uint64_t)ea.as.i64));
                     else
                         ev = val_float(dr);
                     vm_array_push(result, ev);
@@ -683,13 +683,13 @@ VmTrap vm_core_execute(VmState *vm) {
                     NanoValue eb = arr_b->elements[ai];
                     NanoValue ev;
                     if (ea.tag == TAG_INT && eb.tag == TAG_INT)
-                        ev = val_int(ea.as.i64 * eb.as.i64);
+                        ev = val_int((int64_t)((uint64_t)ea.as.i64 * (uint64_t)eb.as.i64));
                     else if (ea.tag == TAG_FLOAT || eb.tag == TAG_FLOAT) {
                         double da = ea.tag == TAG_FLOAT ? ea.as.f64 : (double)ea.as.i64;
                         double db = eb.tag == TAG_FLOAT ? eb.as.f64 : (double)eb.as.i64;
                         ev = val_float(da * db);
                     } else
-                        ev = val_int(ea.as.i64 * eb.as.i64);
+                        ev = val_int((int64_t)((uint64_t)ea.as.i64 * (uint64_t)eb.as.i64));
                     vm_array_push(result, ev);
                 }
                 vm_release(&vm->heap, a);
@@ -708,7 +708,7 @@ VmTrap vm_core_execute(VmState *vm) {
                     NanoValue ea = arr->elements[ai];
                     NanoValue ev;
                     if (ea.tag == TAG_INT && scalar.tag == TAG_INT)
-                        ev = val_int(ea.as.i64 * scalar.as.i64);
+                        ev = val_int((int64_t)((uint64_t)ea.as.i64 * (uint64_t)scalar.as.i64));
                     else {
                         double da = ea.tag == TAG_FLOAT ? ea.as.f64 : (double)ea.as.i64;
                         double ds = scalar.tag == TAG_FLOAT ? scalar.as.f64 : (double)scalar.as.i64;
@@ -756,7 +756,7 @@ VmTrap vm_core_execute(VmState *vm) {
                     NanoValue eb = arr_b->elements[ai];
                     NanoValue ev;
                     if (ea.tag == TAG_INT && eb.tag == TAG_INT)
-                        ev = val_int(eb.as.i64 == 0 ? 0 : ea.as.i64 / eb.as.i64);
+                        ev = val_int(eb.as.i64 == 0 ? 0 : eb.as.i64 == -1 ? (int64_t)(0 - (uint64_t)ea.as.i64) : ea.as.i64 / eb.as.i64);
                     else {
                         double da = ea.tag == TAG_FLOAT ? ea.as.f64 : (double)ea.as.i64;
                         double db = eb.tag == TAG_FLOAT ? eb.as.f64 : (double)eb.as.i64;
@@ -784,9 +784,9 @@ VmTrap vm_core_execute(VmState *vm) {
                     double ds = scalar.tag == TAG_FLOAT ? scalar.as.f64 : (double)scalar.as.i64;
                     if (ea.tag == TAG_INT && scalar.tag == TAG_INT) {
                         if (arr_is_left)
-                            ev = val_int(scalar.as.i64 == 0 ? 0 : ea.as.i64 / scalar.as.i64);
+                            ev = val_int(scalar.as.i64 == 0 ? 0 : scalar.as.i64 == -1 ? (int64_t)(0 - (uint64_t)ea.as.i64) : ea.as.i64 / scalar.as.i64);
                         else
-                            ev = val_int(ea.as.i64 == 0 ? 0 : scalar.as.i64 / ea.as.i64);
+                            ev = val_int(ea.as.i64 == 0 ? 0 : ea.as.i64 == -1 ? (int64_t)(0 - (uint64_t)scalar.as.i64) : scalar.as.i64 / ea.as.i64);
                     } else {
                         double dr = arr_is_left ? (ds == 0.0 ? 0.0 : da / ds)
                                                 : (da == 0.0 ? 0.0 : ds / da);
